@@ -1,0 +1,56 @@
+//! Hooks for external runtime-verification harnesses.
+//!
+//! Only compiled when rustc is invoked with `--cfg rten_verif`. Exposes every
+//! GEMM kernel that is usable on the current machine, and allows the kernel
+//! selected by `GemmExecutor::default` to be overridden.
+
+use std::sync::atomic::{AtomicUsize, Ordering};
+
+use crate::{GemmExecutor, WithKernel};
+
+/// Return a `(name, executor)` pair for each f32 kernel usable on this machine.
+pub fn f32_kernels() -> Vec<(String, GemmExecutor<f32, f32, f32>)> {
+    <GemmExecutor<f32, f32, f32> as WithKernel>::kernel_types()
+        .into_iter()
+        .filter_map(|kt| {
+            GemmExecutor::<f32, f32, f32>::with_kernel(kt).map(|gemm| (format!("{:?}", kt), gemm))
+        })
+        .collect()
+}
+
+/// Return a `(name, executor)` pair for each u8 x i8 -> i32 kernel usable on
+/// this machine.
+pub fn int8_kernels() -> Vec<(String, GemmExecutor<u8, i8, i32>)> {
+    <GemmExecutor<u8, i8, i32> as WithKernel>::kernel_types()
+        .into_iter()
+        .filter_map(|kt| {
+            GemmExecutor::<u8, i8, i32>::with_kernel(kt).map(|gemm| (format!("{:?}", kt), gemm))
+        })
+        .collect()
+}
+
+// Index + 1 into the lists above, or 0 for normal selection.
+static FORCED_F32: AtomicUsize = AtomicUsize::new(0);
+static FORCED_INT8: AtomicUsize = AtomicUsize::new(0);
+
+/// Make `GemmExecutor::<f32, f32, f32>::default()` return the kernel at
+/// position `index` in [`f32_kernels`], or restore normal selection.
+pub fn set_forced_f32_kernel(index: Option<usize>) {
+    FORCED_F32.store(index.map(|i| i + 1).unwrap_or(0), Ordering::SeqCst);
+}
+
+/// Make `GemmExecutor::<u8, i8, i32>::default()` return the kernel at
+/// position `index` in [`int8_kernels`], or restore normal selection.
+pub fn set_forced_int8_kernel(index: Option<usize>) {
+    FORCED_INT8.store(index.map(|i| i + 1).unwrap_or(0), Ordering::SeqCst);
+}
+
+pub(crate) fn forced_f32_executor() -> Option<GemmExecutor<f32, f32, f32>> {
+    let index = FORCED_F32.load(Ordering::SeqCst).checked_sub(1)?;
+    f32_kernels().into_iter().nth(index).map(|(_, gemm)| gemm)
+}
+
+pub(crate) fn forced_int8_executor() -> Option<GemmExecutor<u8, i8, i32>> {
+    let index = FORCED_INT8.load(Ordering::SeqCst).checked_sub(1)?;
+    int8_kernels().into_iter().nth(index).map(|(_, gemm)| gemm)
+}
